@@ -139,9 +139,18 @@ def generate_high_level_commands_for_sched_op(sched_op, schedule):
     # Create activation function if needed
     for op in ps.ops:
         if op.type.is_relu_op() or op.type in (Op.Tanh, Op.Sigmoid):
-            ps.primary_op.activation = create_activation_function(
+            activation = create_activation_function(
                 op.type, min=op.attrs.get("min", None), max=op.attrs.get("max", None)
             )
+            prev = ps.primary_op.activation
+            if op.type.is_relu_op() and prev is not None and prev.op_type.is_relu_op():
+                # The primary op already clamps (fused activation or an earlier RELU-type op of this pass):
+                # the result is the intersection of the two ranges, not the range of the last operator
+                if prev.min is not None:
+                    activation.min = prev.min if activation.min is None else max(activation.min, prev.min)
+                if prev.max is not None:
+                    activation.max = prev.max if activation.max is None else min(activation.max, prev.max)
+            ps.primary_op.activation = activation
 
     # Generate commands for the Op that produces this Op's IFM, if applicable
     if cascade_info is None or cascade_info.start == sched_op.index:
